@@ -217,6 +217,8 @@ def run(db, cx):
     solver_dependence(db, cx)
     plane_conversion(db, cx)
     sphere_conversion(db, cx)
+    cyl_conversion(db, cx)
+    cone_conversion(db, cx)
 
 
 def fmt(form):
@@ -552,3 +554,135 @@ def sphere_conversion(db, cx):
           "r^2 = %r" % (r2,), short(f.loc),
           why="a radius computed with another scale is a different sphere: points between the two "
               "change sense")
+
+
+def cyl_conversion(db, cx):
+    """C12.6-cyl-conversion (A6), sibling of the sphere rule: for each axis T the quadric
+    a(u^2 + v^2) + e_u u + e_v v + h = 0 becomes CylAligned<T>{origin, r^2}:
+    origin_u = -e_u/(2a), origin_v = -e_v/(2a), origin_T = 0, o_u^2 + o_v^2 - r^2 = h/a."""
+    from polyinterp import Poly, Interp, Return, as_poly
+    from astutil import OutOfVocabulary
+    from fractions import Fraction
+    name = C + "detail::QuadricCylConverter::operator()"
+    fs = [f for f in db.get(name) if f.r.get("ast")]
+    cx.floor("QuadricCylConverter instantiations", len(fs), 3)
+    a = Poly.sym("a")
+    h = Poly.sym("h")
+    for f in fs:
+        m = re.search(r"Axis::([xyz])>", f.inst)
+        cx.require(m, "QuadricCylConverter instantiation without an axis: %s" % f.inst)
+        t = "xyz".index(m.group(1))
+        e = [Poly.sym("e%d" % i) if i != t else Poly() for i in range(3)]
+        second = [a if i != t else Poly() for i in range(3)]
+
+        def assume(op, x, y, n):
+            if op in ("<=", "<"):
+                return False
+            if op in (">", ">="):
+                return True
+            return None
+        acc = {C + "SimpleQuadric::second": second, C + "SimpleQuadric::first": e,
+               C + "SimpleQuadric::zeroth": h, "member:soft_equal_": lambda args: True,
+               C + "CylAligned::from_radius_sq": lambda args: ("cyl", args[0], args[1]),
+               "assume": assume}
+        it = Interp(f, acc)
+        try:
+            try:
+                it.run(f.r["ast"])
+                val = None
+            except Return as r:
+                val = r.v
+            while isinstance(val, tuple) and val[0] == "construct" and len(val[2]) == 1:
+                val = val[2][0]
+        except OutOfVocabulary as ex:
+            raise AnalysisBroken("C12.6: QuadricCylConverter<%s> is outside the interpreter's vocabulary: %s"
+                                 % (m.group(1), ex))
+        cx.require(isinstance(val, tuple) and val[0] == "cyl" and isinstance(val[1], list) and len(val[1]) == 3,
+                   "QuadricCylConverter<%s> does not return CylAligned::from_radius_sq(origin, r^2): %r"
+                   % (m.group(1), val))
+        o, r2 = val[1], as_poly(val[2])
+        half_inv = Poly.const(Fraction(-1, 2)).div(a)
+        ok_o = all(as_poly(o[i]) == e[i] * half_inv for i in range(3))
+        oo = Poly()
+        for i in range(3):
+            if i != t:
+                oo = oo + as_poly(o[i]) * as_poly(o[i])
+        ok_r = (oo - r2) == h.div(a)
+        cx.ob("C12.6-cyl-conversion", "QuadricCylConverter<%s>: origin = -e / (2a) in the plane, 0 along the axis"
+              % m.group(1), ok_o, "origin = (%s)" % ", ".join(repr(x) for x in o), short(f.loc),
+              why="expanding the cylinder's implicit function must reproduce the quadric divided by a")
+        cx.ob("C12.6-cyl-conversion", "QuadricCylConverter<%s>: o_u^2 + o_v^2 - r^2 = h / a" % m.group(1),
+              ok_r, "r^2 = %r" % (r2,), short(f.loc),
+              why="a radius computed with another scale is a different cylinder")
+
+
+def cone_conversion(db, cx):
+    """C12.6-cone-conversion (A6), sibling rule: c t^2... for each axis T the quadric
+    c x_T^2 + b(u^2 + v^2) + e.x + h = 0 (c < 0 < b) becomes ConeAligned<T>{origin, t^2} with
+    -t^2 (x_T - o_T)^2 + (u - o_u)^2 + (v - o_v)^2: t^2 = -c/b, o_T = -e_T/(2c), o_u = -e_u/(2b),
+    and the constant that is compared with h/b at run time (hyperboloid test) is
+    -t^2 o_T^2 + o_u^2 + o_v^2."""
+    from polyinterp import Poly, Interp, Return, as_poly
+    from astutil import OutOfVocabulary
+    from fractions import Fraction
+    name = C + "detail::QuadricConeConverter::operator()"
+    fs = [f for f in db.get(name) if f.r.get("ast")]
+    cx.floor("QuadricConeConverter instantiations", len(fs), 3)
+    b, c, h = Poly.sym("b"), Poly.sym("c"), Poly.sym("h")
+    for f in fs:
+        m = re.search(r"Axis::([xyz])>", f.inst)
+        cx.require(m, "QuadricConeConverter instantiation without an axis: %s" % f.inst)
+        t = "xyz".index(m.group(1))
+        e = [Poly.sym("e%d" % i) for i in range(3)]
+        second = [b if i != t else c for i in range(3)]
+        compared = []
+
+        def assume(op, x, y, n):
+            if op == "<" and as_poly(x) == c and as_poly(y) == Poly():
+                return True          # the negative second-order coefficient
+            if op in (">", ">="):
+                return True
+            return None
+
+        def soft_equal(args):
+            compared.append(args)
+            return True
+        acc = {C + "SimpleQuadric::second": second, C + "SimpleQuadric::first": e,
+               C + "SimpleQuadric::zeroth": h, "member:soft_equal_": soft_equal,
+               C + "ConeAligned::from_tangent_sq": lambda args: ("cone", args[0], args[1]),
+               "assume": assume}
+        it = Interp(f, acc)
+        try:
+            try:
+                it.run(f.r["ast"])
+                val = None
+            except Return as r:
+                val = r.v
+            while isinstance(val, tuple) and val[0] == "construct" and len(val[2]) == 1:
+                val = val[2][0]
+        except OutOfVocabulary as ex:
+            raise AnalysisBroken("C12.6: QuadricConeConverter<%s> is outside the interpreter's vocabulary: %s"
+                                 % (m.group(1), ex))
+        cx.require(isinstance(val, tuple) and val[0] == "cone" and isinstance(val[1], list) and len(val[1]) == 3,
+                   "QuadricConeConverter<%s> does not return ConeAligned::from_tangent_sq(origin, t^2): %r"
+                   % (m.group(1), val))
+        o, tsq = [as_poly(x) for x in val[1]], as_poly(val[2])
+        ok_t = tsq == (-c).div(b)
+        half = Fraction(-1, 2)
+        ok_o = all(o[i] == (e[i] * Poly.const(half)).div(c if i == t else b) for i in range(3))
+        const = Poly()
+        for i in range(3):
+            const = const + (o[i] * o[i] * (-tsq) if i == t else o[i] * o[i])
+        pair = [p_ for p_ in compared if len(p_) == 2 and (as_poly(p_[1]) == h.div(b) or as_poly(p_[0]) == h.div(b))]
+        ok_h = bool(pair) and any(as_poly(p_[0]) == const or as_poly(p_[1]) == const for p_ in pair)
+        tag = m.group(1)
+        cx.ob("C12.6-cone-conversion", "QuadricConeConverter<%s>: t^2 = -c/b" % tag, ok_t, "t^2 = %r" % (tsq,),
+              short(f.loc), why="the opening angle of the cone")
+        cx.ob("C12.6-cone-conversion", "QuadricConeConverter<%s>: origin = -e_T/(2c) along the axis, -e/(2b) across"
+              % tag, ok_o, "origin = (%s)" % ", ".join(repr(x) for x in o), short(f.loc),
+              why="expanding the cone's implicit function must reproduce the quadric divided by b")
+        cx.ob("C12.6-cone-conversion", "QuadricConeConverter<%s>: the hyperboloid test compares h/b with "
+              "-t^2 o_T^2 + o_u^2 + o_v^2" % tag, ok_h,
+              "compared: %s" % "; ".join("(%r, %r)" % (p_[0], p_[1]) for p_ in compared if len(p_) == 2)[:300],
+              short(f.loc),
+              why="with another constant a hyperboloid is accepted as a cone (or a cone rejected)")
